@@ -1,6 +1,7 @@
 package main
 
 import (
+	"regexp"
 	"os"
 	"fmt"
 	"go/token"
@@ -520,8 +521,16 @@ func (fr *Frame) applyContract(ct *Contract, callee *ssa.Function, sig *types.Si
 		for i, n := range names {
 			if n == cb.Names[0] {
 				fr.cbOnce = cb.Label == "once"
+				fr.cbRehavoc = func(s2 *State) {
+					if ct.HasMod {
+						fr.havocModifies(ct.Modifies, env, s2, pc)
+					} else if !ct.Extern {
+						fr.externDefaultHavoc(args, s2)
+					}
+				}
 				lam := fr.runCallbackWith(args[i], pc, st, pos, cb.Expr, env)
 				fr.cbOnce = false
+				fr.cbRehavoc = nil
 				if cb.Handle != "" && lam != nil {
 					lambdas[cb.Handle] = lam
 				}
@@ -1059,8 +1068,15 @@ func (fr *Frame) runCallbackWith(fv Value, pc *Term, st *State, pos string, cond
 		}
 	}
 	once := fr.cbOnce
+	var pres *presEval
 	if !once {
+		// a callback that may run any number of times: what it "preserves" holds before the
+		// first call (obligation), hence before and after every call (induction over the calls;
+		// the clause may not read anything the calling function itself changes)
+		pres = fr.callbackPreserves(cl)
+		pres.check(fr, pc, st, pos)
 		havoc()
+		pres.assume(fr, pc, st)
 	}
 	if cct := x.W.ContractFor(cl.Fn); cct != nil {
 		// verified separately against its own contract; its preconditions
@@ -1099,6 +1115,7 @@ func (fr *Frame) runCallbackWith(fv Value, pc *Term, st *State, pos string, cond
 		return nil
 	}
 	havoc()
+	pres.assume(fr, pc, st)
 	if len(rvals) == 1 && len(rvals[0].L) == 1 {
 		lam := &Lambda{Result: rvals[0].L[0]}
 		for _, p := range params {
@@ -1110,6 +1127,142 @@ func (fr *Frame) runCallbackWith(fv Value, pc *Term, st *State, pos string, cond
 		return lam
 	}
 	return nil
+}
+
+// presEval evaluates the "preserves" clauses of the function behind a callback value: a closure
+// with a contract, or a bound method whose method has one.
+type presEval struct {
+	cct    *Contract
+	target *ssa.Function
+	cl     *FuncVal
+	params map[string]Value
+}
+
+// boundVarNum: the numbering of bound variables, which differs between two evaluations of a clause
+var boundVarNum = regexp.MustCompile(`\$[0-9]+`)
+
+// boundTarget: the method a bound-method wrapper calls.
+func boundTarget(fn *ssa.Function) *ssa.Function {
+	if !strings.HasPrefix(fn.Synthetic, "bound method wrapper") || len(fn.Blocks) == 0 {
+		return nil
+	}
+	for _, in := range fn.Blocks[0].Instrs {
+		if c, ok := in.(*ssa.Call); ok {
+			return c.Call.StaticCallee()
+		}
+	}
+	return nil
+}
+
+func (fr *Frame) callbackPreserves(cl *FuncVal) *presEval {
+	x := fr.x
+	target := cl.Fn
+	if t := boundTarget(cl.Fn); t != nil {
+		target = t
+	}
+	cct := x.W.ContractFor(target)
+	if cct == nil {
+		return nil
+	}
+	n := 0
+	for _, p := range cct.Preserves {
+		if x.active(p) {
+			n++
+		}
+	}
+	if n == 0 {
+		return nil
+	}
+	pe := &presEval{cct: cct, target: target, cl: cl, params: map[string]Value{}}
+	for i, p := range target.Params {
+		if target != cl.Fn && i == 0 && len(cl.Bind) > 0 {
+			pe.params[p.Name()] = cl.Bind[0] // the bound receiver
+			continue
+		}
+		pe.params[p.Name()] = x.freshValue(p.Type(), "cbp_"+p.Name())
+	}
+	return pe
+}
+
+func (pe *presEval) terms(fr *Frame, st *State) []*Term {
+	x := fr.x
+	env := x.envForFunc(pe.target, pe.target.Signature, nil, nil, st, nil)
+	if pe.target == pe.cl.Fn {
+		for i, fv := range pe.cl.Fn.FreeVars {
+			if i >= len(pe.cl.Bind) {
+				break
+			}
+			if p, ok := fv.Type().Underlying().(*types.Pointer); ok {
+				l := x.locOf(pe.cl.Bind[i].One(), p.Elem())
+				if l.Kind == LCell {
+					if v, ok := st.cells[l.Cell]; ok {
+						env.vars[fv.Name()] = svValue(v)
+					}
+					continue
+				}
+			}
+			env.vars[fv.Name()] = svValue(pe.cl.Bind[i])
+		}
+	}
+	for n, v := range pe.params {
+		env.vars[n] = svValue(v)
+	}
+	var out []*Term
+	for _, p := range pe.cct.Preserves {
+		if !x.active(p) {
+			continue
+		}
+		var t *Term
+		if err := safeEval(func() { t = env.Bool(p.Expr) }); err != nil {
+			panic(stopExec{fmt.Sprintf("callback %s: preserves %q: %v", pe.cct.Func, p.Src, err)})
+		}
+		out = append(out, t)
+	}
+	return out
+}
+
+func (pe *presEval) check(fr *Frame, pc *Term, st *State, pos string) {
+	if pe == nil {
+		return
+	}
+	x := fr.x
+	ts := pe.terms(fr, st)
+	if fr.cbRehavoc != nil {
+		s2 := st.clone()
+		fr.cbRehavoc(s2)
+		for i, t2 := range pe.terms(fr, s2) {
+			if t2 != ts[i] && boundVarNum.ReplaceAllString(t2.String(), "$$") != boundVarNum.ReplaceAllString(ts[i].String(), "$$") {
+				if os.Getenv("GOVC_TRACE") != "" {
+					fmt.Fprintf(os.Stderr, "trace: preserves term before/after re-havoc:\n  %s\n  %s\n", ts[i], t2)
+				}
+				panic(stopExec{fmt.Sprintf("callback %s: a preserves clause reads state that the function calling it changes itself", pe.cct.Func)})
+			}
+		}
+	}
+	k := 0
+	for _, p := range pe.cct.Preserves {
+		if !x.active(p) {
+			continue
+		}
+		if x.mode.Functional {
+			lbl := p.Label
+			if lbl == "" {
+				lbl = truncate(p.Src, 40)
+			}
+			o := x.oblige("requires", pe.cct.Func+":"+lbl, pos, pc, ts[k])
+			o.Extra = map[string]string{"requires": p.Src, "what": "what a callback preserves holds when it is handed out"}
+		}
+		k++
+	}
+}
+
+func (pe *presEval) assume(fr *Frame, pc *Term, st *State) {
+	if pe == nil {
+		return
+	}
+	for _, t := range pe.terms(fr, st) {
+		fr.x.assume(pc, t, "preserved by every call of the callback "+pe.cct.Func)
+	}
 }
 
 // checkClosureRequires: a closure with its own contract is handed to code
@@ -2047,6 +2200,31 @@ func (fr *Frame) atCallAsserts(c *ssa.CallCommon, callee *ssa.Function, args []V
 		env.lookup = func(name string) (SV, bool) { return fr.resolveLocalAt(name, st) }
 		for i, a := range args {
 			env.vars[fmt.Sprintf("arg%d", i)] = svValue(a)
+		}
+		if cl.Handle != "" {
+			// ghost assignment: a scalar ghost of this function's contract file takes the value
+			// of the expression here (not inside loops: the loop frame would not know about it)
+			g, ok := x.W.Specs.Ghosts[cl.Handle]
+			if !ok {
+				panic(stopExec{fmt.Sprintf("at %s: set: unknown ghost %q", cl.Names[0], cl.Handle)})
+			}
+			if blk := fr.curBlock; blk != nil {
+				for _, lp := range fr.li.Loops {
+					if lp.Blocks[blk] {
+						panic(stopExec{fmt.Sprintf("at %s: set ghost.%s inside a loop is not supported", cl.Names[0], cl.Handle)})
+					}
+				}
+			}
+			var v *Term
+			if err := safeEval(func() { v = env.term(env.eval(cl.Expr)) }); err != nil {
+				x.noteStale(fmt.Sprintf("%s: at %s: set %q: %v", shortFuncName(fr.fn), cl.Names[0], cl.Src, err))
+				continue
+			}
+			if v.Sort != env.sortByName(g.Sort) {
+				panic(stopExec{fmt.Sprintf("at %s: set ghost.%s: sort mismatch", cl.Names[0], cl.Handle)})
+			}
+			x.heapSet(st, "ghost:"+cl.Handle, v)
+			continue
 		}
 		var t *Term
 		if err := safeEval(func() { t = env.Bool(cl.Expr) }); err != nil {
